@@ -505,6 +505,10 @@ pub struct SchemaKnobs {
     pub one_of: bool,
     pub custom_root_names: bool,
     pub empty_abstract: bool,
+    /// enum values that differ only in case style (`asc` / `ASC`, `self` / `Self`) may meet in one enum: distinct variants
+    /// under normalization none, one identifier under normalization rust (C02's finding) - the user of this knob must not
+    /// combine such a schema with normalization rust (`default_opts` does not)
+    pub enum_case_twins: bool,
 }
 
 impl Default for SchemaKnobs {
@@ -516,6 +520,7 @@ impl Default for SchemaKnobs {
             one_of: true,
             custom_root_names: true,
             empty_abstract: false,
+            enum_case_twins: false,
         }
     }
 }
@@ -624,8 +629,21 @@ pub fn random_schema(rng: &mut Rng, k: &SchemaKnobs) -> ASchema {
         // enum declare one variant twice: that is C02's known finding `enum-values-equal-after-normalization`
         // (witness in its corpus); the random schemas stay clear of it
         let mut values = pick_distinct(rng, &pool, n);
+        let twins = k.enum_case_twins && rng.chance(50);
+        if twins {
+            // a pair that differs in case only, as `order_by { asc ASC }` of real schemas
+            for (a, b) in [("asc", "ASC"), ("desc_nulls", "DESC_NULLS")] {
+                if rng.chance(60) && !values.iter().any(|v| v == a || v == b) {
+                    values.push(a.to_string());
+                    values.push(b.to_string());
+                }
+            }
+        }
         let mut seen: Vec<String> = Vec::new();
         values.retain(|v| {
+            if twins {
+                return true;
+            }
             let key: String = v.chars().filter(|c| *c != '_').flat_map(|c| c.to_lowercase()).collect();
             if seen.contains(&key) { false } else { seen.push(key); true }
         });
